@@ -525,6 +525,8 @@ class VG:
             return self.get_field(p[1])
         if k == 'cplace':
             return phi(p[1], self.read_place(p[2]), self.read_place(p[3]))
+        if k == 'flocal':
+            return self.frames[p[1]].locals.get(p[2], unk('uninit-local')) if p[1] < len(self.frames) else unk('dangling-local')
         if k == 'lfield':
             cur = self.read_place(p[1])
             if isinstance(cur, tuple) and cur and cur[0] == 'struct' and isinstance(cur[2], dict) and p[2] in cur[2]:
@@ -559,6 +561,19 @@ class VG:
             self.write_place(p[1], ('set_back', self.read_place(p[1]), t), node)
         elif k == 'front':
             self.write_place(p[1], ('set_front', self.read_place(p[1]), t), node)
+        elif k == 'flocal':
+            if p[1] + 1 < len(self.frames):
+                # a write, from inside an inlined callee, to a local of the caller: it happens under the path condition accumulated
+                # since the call (branch merging only covers the current frame's locals)
+                since = [c for c in self.pc[getattr(self.frames[p[1] + 1], 'base_pc_len', len(self.pc)):]]
+                if any(isinstance(c, tuple) and c and c[0] == 'inloop' for c in since) or self.loop_stack != getattr(self.frames[p[1] + 1], 'base_loops', self.loop_stack):
+                    self.note_unknown('write to a caller local from inside a loop of the callee', node)
+                old_ = self.frames[p[1]].locals.get(p[2], unk('uninit-local'))
+                self.frames[p[1]].locals[p[2]] = phi(conj(since), t, old_) if since else t
+            elif p[1] < len(self.frames):
+                self.frames[p[1]].locals[p[2]] = t
+            else:
+                self.note_unknown('write-to-dangling-local', node)
         elif k == 'cplace':
             # a write through a reference chosen by condition c: the chosen place takes the value, the other keeps its own
             from .terms import map_term
@@ -700,9 +715,34 @@ class VG:
                 cs += [self.pat_cond(sp, self.seq_elem_end(v, na - j)) for j, sp in enumerate(p.get('after', []))]
             return conj(cs)
         if k == 'pstruct' and not pat_is_some(p) and not pat_is_none(p):
-            return TRUE
+            # a struct pattern matches when every field sub-pattern does (`State { flat: false, .. }` is refutable)
+            cs = []
+            for f in p.get('fields', []):
+                if f['pat'].get('k') in ('bind', 'wild') and 'sub' not in f['pat']:
+                    continue
+                if isinstance(v, tuple) and v and v[0] == 'struct' and isinstance(v[2], dict) and f['name'] in v[2]:
+                    fv = v[2][f['name']]
+                elif isinstance(v, tuple) and v and v[0] == 'in':
+                    fv = self.get_field(v[1] + '.' + f['name'])
+                elif isinstance(v, tuple) and v and v[0] == 'ref' and v[1][0] == 'field':
+                    fv = self.get_field(v[1][1] + '.' + f['name'])
+                else:
+                    fv = ('fieldof', v, f['name'])
+                cs.append(self.pat_cond(f['pat'], fv))
+            return conj(cs)
         if k == 'ptuplestruct' and isinstance(p.get('path'), dict) and self.F.adts.get(p['path'].get('def'), {}).get('kind') == 'Struct':
-            return TRUE     # a tuple struct pattern is irrefutable (sub-patterns are bindings in this code base)
+            cs = []
+            for i, sp in enumerate(p['pats']):
+                if sp.get('k') in ('bind', 'wild') and 'sub' not in sp:
+                    continue
+                if isinstance(v, tuple) and v and v[0] == 'struct' and isinstance(v[2], dict) and str(i) in v[2]:
+                    fv = v[2][str(i)]
+                elif isinstance(v, tuple) and v and v[0] == 'in':
+                    fv = self.get_field(v[1] + '.%d' % i)
+                else:
+                    fv = ('fieldof', v, str(i))
+                cs.append(self.pat_cond(sp, fv))
+            return conj(cs)
         if k == 'por':
             alts = [self.pat_cond(x, v) for x in p['pats']]
             if any(a == TRUE for a in alts):
@@ -981,6 +1021,9 @@ class VG:
         if p is not None and p[0] in ('field', 'payload', 'elem', 'self'):
             if p[0] == 'self':
                 return ('selfref', p[1])
+            return ('ref', p)
+        if p is not None and p[0] in ('local', 'lfield') and e.get('mut'):
+            # `&mut x` of a local: a reference to that local (writes through it -- also by an inlined callee -- reach it)
             return ('ref', p)
         return self.value_noderef(e['e'], fr)
 
@@ -2011,16 +2054,37 @@ class VG:
         argv = [a if (isinstance(a, tuple) and a and a[0] in ('ref', 'selfref', 'optref', 'closure')) else a for a in argv]
         # a mutable borrow of a caller's LOCAL handed to the callee: the callee's writes through it are not modelled (locals are
         # per-frame), so the local's value after the call is unknown -- fail closed instead of keeping the old value
-        for a_node in (args[1:] if has_self else args):
-            a0 = a_node
-            while a0.get('k') in ('block',) and not a0.get('stmts') and 'expr' in a0:
-                a0 = a0['expr']
-            if a0.get('k') == 'addr' and a0.get('mut'):
-                pl = self.place_of(a0['e'], fr)
-                if pl is not None and pl[0] == 'local':
-                    fr.locals[pl[1]] = self.note_unknown('mut-borrow-of-local-passed-to-helper', a_node)
+        # (a mutable borrow of a caller's local handed to the callee is a reference pinned to the caller's frame -- see _pin below)
+        caller_idx = len(self.frames) - 1
+
+        def _pin(a_):
+            # a reference to a local of the caller stays a reference to THAT frame's local inside the callee
+            if isinstance(a_, tuple) and a_ and a_[0] == 'ref' and isinstance(a_[1], tuple) and a_[1] and a_[1][0] == 'local':
+                return ('ref', ('flocal', caller_idx, a_[1][1]))
+            if isinstance(a_, tuple) and a_ and a_[0] == 'ref' and isinstance(a_[1], tuple) and a_[1] and a_[1][0] == 'lfield':
+                def pin_place(pl):
+                    if pl[0] == 'local':
+                        return ('flocal', caller_idx, pl[1])
+                    if pl[0] == 'lfield':
+                        return ('lfield', pin_place(pl[1]), pl[2])
+                    return pl
+                return ('ref', pin_place(a_[1]))
+            return a_
+        argv = [_pin(a_) for a_ in argv]
+        copy_back = None
+        if self_value is not None and isinstance(self_value, tuple) and self_value and self_value[0] == 'struct' \
+                and str(e.get('recv_ty_adj', '')).startswith('&mut'):
+            rp_ = self.place_of(args[0], fr)
+            if rp_ is not None and rp_[0] in ('local', 'lfield'):
+                copy_back = rp_        # `&mut self` on a struct value held in a local: the callee's writes go back to it
+            else:
+                self.note_unknown('&mut self method on a temporary struct value', e)
+        self_value = _pin(self_value) if self_value is not None else None
         self.depth += 1
         nf = self.push_frame(target, prefix, argv)
+        nf.base_pc_len = len(self.pc)
+        nf.base_loops = list(self.loop_stack)
+        self_pid = nf.selfid
         if self_value is not None:
             nf.locals[nf.selfid] = self_value
             nf.selfid = None
@@ -2030,6 +2094,12 @@ class VG:
             nf.exits.append(Exit(tuple(self.pc), dict(self.fields), ret, target.body, 'end'))
         self.frames.pop()
         self.depth -= 1
+        if copy_back is not None:
+            if len(nf.exits) <= 1:
+                self.write_place(copy_back, nf.locals.get(self_pid, unk('self-after-call')), e)
+            else:
+                self.note_unknown('&mut self method with several exits on a struct value in a local', e)
+                self.write_place(copy_back, unk('self-after-call'), e)
         # merge the callee's exits back into one state
         exits = nf.exits
         self.dead = False
@@ -3325,6 +3395,12 @@ def mode_fields(F, view):
         except Exception:
             written = set(cand)
         cand = {k: t for k, t in cand.items() if not any(w == k or k.startswith(w + '.') or w.startswith(k + '.') for w in written)}
+        # a replacement term may only mention fields update() never writes either (a parameter copy that is really a counter
+        # initialised from the argument does not stay equal to the argument)
+        def _reads_written(t):
+            return any(x[0] == 'in' and any(w == x[1] or x[1].startswith(w + '.') or w.startswith(x[1] + '.') for w in written)
+                       for x in subterms(t)) if isinstance(t, tuple) else False
+        cand = {k: t for k, t in cand.items() if not _reads_written(t)}
     _mode_cache[key] = cand
     return cand
 
